@@ -89,6 +89,12 @@ def tableOK (tb : TableId) (m : MTable) : Bool := (entries [] m).all fun (p, t) 
 def zoneKeys : List Str := [S "query", S "filter", S "q", S "update", S "u", S "updates", S "deletes",
   S "documents", S "pipeline", S "arrayFilters"]
 
+/-- keys under which a whole operation (with zone keys of its own) sits one level down: the command
+    wrapped by `explain`, the elements of `ops` in a `bulkWrite`; and the two zone keys only bulkWrite
+    operations use -/
+def nestedOperationKeys : List Str := [S "explain", S "ops"]
+def bulkZoneKeys : List Str := [S "updateMods", S "document"]
+
 /-- the attributes holding a command document: the command, its originating command, and the command
     copy attached to an error report -/
 def commandAttrs : List Str := [S "command", S "originatingCommand", S "cmd"]
